@@ -1,0 +1,63 @@
+//go:build verif
+
+package merkle
+
+// Machine-checked contracts for this package (read by /verif/govc; comment-only, compiled only
+// with -tags verif). See /verif/DESIGN.md.
+//
+// mth is the RFC 6962 tree hash MTH over the marshaled leaves: H() for no leaf, H(0x00 || leaf) for
+// one, H(0x01 || MTH(first k) || MTH(rest)) with k = lpo2(n) the largest power of two strictly below
+// n. The hash function is any crypto.Hash; the proof is done once per digest size HS (the sizes of all
+// registered crypto.Hash functions), so that digests are fixed-length byte strings.
+
+//@ props C15
+
+//@ spec ispow2(p int) bool = exists(j, 0, 63, p == 1<<j)
+//@ decl lpo2(n int) int
+//@ axiom lpo2_def(n int)
+//@   ensures  implies(2 <= n, ispow2(lpo2(n)) && lpo2(n) < n && n <= 2*lpo2(n))
+//@ lemma pow2_unique(p int, q int, n int)
+//@   props C15
+//@   requires ispow2(p) && ispow2(q) && p < n && n <= 2*p && q < n && n <= 2*q
+//@   ensures  p == q
+
+//@ func largestPowerOfTwo(x int) (r uint)
+//@   repr uint
+//@   bv x
+//@   panics  when x <= 1
+//@   ensures ispow2(mathint(r)) && mathint(r) < mathint(x) && mathint(x) <= 2*mathint(r)
+
+//@ rec mth(fn crypto.Hash, data []encoding.BinaryMarshaler, j int) byte = ite(len(data) <= 0, hashcat(fn)[j], ite(len(data) == 1, hashcat(fn, byte(0), encoding.marr(data[0])[0:encoding.mlen(data[0])])[j], hashcat(fn, byte(1), mkarray(HS, i, mth(fn, data[0:lpo2(len(data))], i)), mkarray(HS, i, mth(fn, data[lpo2(len(data)):len(data)], i)))[j]))
+//@ spec allok(data []encoding.BinaryMarshaler) bool = forall(a, off(data), off(data)+len(data), encoding.mok(data[a-off(data)]))
+//@ spec firsterr(data []encoding.BinaryMarshaler, k int) bool = exists(a, off(data), off(data)+len(data), !encoding.mok(data[a-off(data)]) && forall(m, off(data), a, encoding.mok(data[m-off(data)])) && k == encoding.merrkind(data[a-off(data)]))
+
+//@ func (t *Hasher) EmptyRoot() (r []byte)
+//@   specialize HS = 16 20 28 32 48 64
+//@   requires t.hash.Size() == HS
+//@   ensures  len(r) == HS && forall(j, 0, HS, r[j] == hashcat(t.hash)[j])
+//@   panics   never
+
+//@ func (t *Hasher) hashLeaf(data encoding.BinaryMarshaler) (r []byte, err error)
+//@   specialize HS = 16 20 28 32 48 64
+//@   requires t.hash.Size() == HS
+//@   ensures  isnil(err) == encoding.mok(data)
+//@   ensures  implies(isnil(err), len(r) == HS && forall(j, 0, HS, r[j] == hashcat(t.hash, byte(0), encoding.marr(data)[0:encoding.mlen(data)])[j]))
+//@   ensures  implies(!isnil(err), r == nil && errkind(err) == encoding.merrkind(data))
+//@   panics   never
+
+//@ func (t *Hasher) hashNode(l []byte, r []byte) (h []byte)
+//@   specialize HS = 16 20 28 32 48 64
+//@   requires t.hash.Size() == HS && len(l) == HS && len(r) == HS
+//@   ensures  len(h) == HS && forall(j, 0, HS, h[j] == hashcat(t.hash, byte(1), l, r)[j])
+//@   panics   never
+
+//@ func (t *Hasher) Hash(data []encoding.BinaryMarshaler) (r []byte, err error)
+//@   specialize HS = 16 20 28 32 48 64
+//@   requires t.hash.Size() == HS
+//@   decreases len(data)
+//@   use lpo2_def(len(data))
+//@   use pow2_unique(mathint(k), lpo2(len(data)), len(data))
+//@   ensures  isnil(err) == allok(data)
+//@   ensures  implies(isnil(err), len(r) == HS && forall(j, 0, HS, r[j] == mth(t.hash, data, j)))
+//@   ensures  implies(!isnil(err), r == nil && firsterr(data, errkind(err)))
+//@   panics   never
